@@ -29,7 +29,12 @@ def bracket (d : Path) (body : Path → World → World × Exit) (w : World) : W
   (rmtree d w', e)
 
 /-- a body that only creates or removes entries at or below its directory
-    (chunk files `join(d, "events_0_<i>.dat")`, the spooled event file) -/
+    (chunk files `join(d, "events_0_<i>.dat")`, the spooled event file): every
+    path outside `d` exists afterwards iff it existed before.  AN ASSUMPTION
+    ABOUT THE REAL BODIES where it is a hypothesis (`C17.fs_clean`,
+    `fs_clean_siblings`, `old_spool_leaks`) — modulo `rmtree` it is the
+    conclusion of `fs_clean`; proved (by construction) only for the modelled
+    `chunkBody`. -/
 def OnlyBelow (d : Path) (body : Path → World → World × Exit) : Prop :=
   ∀ w p, below d p = false → (p ∈ (body d w).1 ↔ p ∈ w)
 
@@ -46,7 +51,8 @@ namespace Pyndl.Effects
 /-- the concrete file-system effects of `ndl.ndl` / the `wh` flavours: chunk
     files `events_0_<i>.dat` are created in the temporary directory `d`
     (some of them may be removed again by the job that found no events), then
-    the learner returns or raises. -/
+    the learner returns or raises.  By construction the body can only create
+    entries `d ++ [name]`. -/
 def chunkBody (created : List String) (e : Exit) : Path → World → World × Exit :=
   fun d w => (created.map (fun name => d ++ [name]) ++ w, e)
 
@@ -112,10 +118,14 @@ def bracketC (d : Path) (body : Path → FS → FS × Exit) (fs : FS) : FS × Ex
 
 /-- the body leaves every path that is not at or below `d` as it was: same
     existence, same kind, same bytes.  THIS IS AN ASSUMPTION ABOUT THE REAL
-    BODIES (`create_binary_event_files`, the learning kernels, `events_to_file`);
-    it is proved here only for the modelled bodies `opsBody`, and observed for
-    the real ones by the differential run (directory listing and sha256 of every
-    file outside the temporary directory before and after each call). -/
+    BODIES (`create_binary_event_files`, the learning kernels, `events_to_file`)
+    and, modulo `rmtreeC`, it IS the conclusion of `C17.fs_clean_contents` (whose
+    only hypothesis about the body it is).  It holds BY CONSTRUCTION for the
+    modelled bodies `opsBody` (they can only address `d ++ [name]`:
+    `opsBody_onlyBelowC`), and is observed for the real ones by the differential
+    run (directory listing and sha256 of every file outside the temporary
+    directory before and after each call) — that run, not a theorem, decides
+    "the input is byte-for-byte unchanged". -/
 def OnlyBelowC (d : Path) (body : Path → FS → FS × Exit) : Prop :=
   ∀ fs p, below d p = false → (body d fs).1.get p = fs.get p
 
@@ -135,7 +145,9 @@ def runOp (d : Path) (fs : FS) : Op → FS
 def runOps (d : Path) (ops : List Op) (fs : FS) : FS := ops.foldl (runOp d) fs
 
 /-- a modelled body: any sequence of writes and removals in its directory, then
-    return or raise (an exception at any point = a shorter sequence and `raised`) -/
+    return or raise (an exception at any point = a shorter sequence and `raised`).
+    By construction it cannot address a path outside `d` (every operation names
+    `d ++ [name]`): the `inputs_unchanged` theorems about it hold for that reason. -/
 def opsBody (ops : List Op) (e : Exit) : Path → FS → FS × Exit :=
   fun d fs => (runOps d ops fs, e)
 
